@@ -76,6 +76,8 @@ structure FieldDef where
   default : Option Json := none
   aliases : List Bytes := []
   doc : Option Bytes := none
+  /-- `#[serde(flatten)]`: the fields of the field's type take this field's place -/
+  flatten : Bool := false
   deriving Repr, Inhabited
 
 inductive VariantShape
@@ -99,6 +101,9 @@ inductive TypeDef
   | struct (ident name : Bytes) (doc : Option Bytes) (aliases : List Bytes) (renameAll : RenameRule) (fields : List FieldDef)
   | enum (ident name : Bytes) (doc : Option Bytes) (aliases : List Bytes) (renameAll renameAllFields : RenameRule)
       (variants : List VariantDef)
+  /-- `#[serde(transparent)]` struct (the attribute excludes every other container attribute): the
+  type stands for its one unskipped field -/
+  | transparent (ident : Bytes) (fields : List FieldDef)
   deriving Repr, Inhabited
 
 def VariantShape.isUnit : VariantShape → Bool
@@ -112,6 +117,7 @@ def plainLike (variants : List VariantDef) : Bool :=
 def TypeDef.ident : TypeDef → Bytes
   | .struct i _ _ _ _ _ => i
   | .enum i _ _ _ _ _ _ => i
+  | .transparent i _ => i
 
 abbrev DEnv := List TypeDef
 
@@ -121,11 +127,26 @@ def DEnv.find? (env : DEnv) (ident : Bytes) : Option TypeDef := List.find? (fun 
 def deriveAliases (al : List Bytes) : Option (Option (List PName)) :=
   if al.isEmpty then some none else (al.mapM (fun a => PName.make a none)).map some
 
-/-- `T::field_default()` of a field type: only `Option` has one (`null`); `Box` passes through -/
-def typeFieldDefault : TyExpr → Option Json
-  | .option _ => some .null
-  | .boxed t => typeFieldDefault t
+/-- the one unskipped field of a transparent struct -/
+def transparentField (fields : List FieldDef) : Option FieldDef :=
+  match fields.filter (fun f => !f.skip) with
+  | [f] => some f
   | _ => none
+
+/-- `T::field_default()` of a field type: `Option` has one (`null`); `Box` and transparent structs
+pass their inner type's through (a transparent struct's field may also declare its own) -/
+def typeFieldDefault (env : DEnv) : Nat → TyExpr → Option Json
+  | 0, _ => none
+  | _+1, .option _ => some .null
+  | fuel+1, .boxed t => typeFieldDefault env fuel t
+  | fuel+1, .named ident =>
+    (match env.find? ident with
+     | some (.transparent _ fields) =>
+       (match transparentField fields with
+        | some f => (match f.default with | some j => some j | none => typeFieldDefault env fuel f.ty)
+        | none => none)
+     | _ => none)
+  | _+1, _ => none
 
 def fieldName (f : FieldDef) (renameAll : RenameRule) : Bytes :=
   match f.rename with
@@ -143,38 +164,52 @@ def natBytes (n : Nat) : Bytes := natDigits (n+1) n
 /-- the result of a schema expression: the schema and the names defined so far -/
 abbrev DOut := Option (PSchema × List PName)
 
-/-- named fields → record fields (`named_fields_to_record_fields`) -/
-def deriveFieldsWith (go : List PName → Option Bytes → TyExpr → DOut) (renameAll : RenameRule) :
+/-- the result of `get_record_fields_in_ctxt`: `none` = a panic, `some (none, _)` = "not a record" -/
+abbrev DFields := Option (Option (List (FieldHdr × PSchema)) × List PName)
+
+/-- named fields → record fields (`named_fields_to_record_fields`); `goF` = the record fields of a
+flattened field's type, `dflt` = the field type's own default -/
+def deriveFieldsWith (go : List PName → Option Bytes → TyExpr → DOut)
+    (goF : List PName → Option Bytes → TyExpr → DFields) (dflt : TyExpr → Option Json) (renameAll : RenameRule) :
     List FieldDef → List PName → Option Bytes → Option (List (FieldHdr × PSchema) × List PName)
   | [], named, _ => some ([], named)
   | f :: rest, named, ns =>
-    if f.skip then deriveFieldsWith go renameAll rest named ns
+    if f.skip then deriveFieldsWith go goF dflt renameAll rest named ns
+    else if f.flatten then
+      -- `if let Some(flattened_fields) = … { fields.extend(flattened_fields) } else { panic!(..) }`
+      match goF named ns f.ty with
+      | some (some inner, named') =>
+        (match deriveFieldsWith go goF dflt renameAll rest named' ns with
+         | none => none
+         | some (fs, named'') => some (inner ++ fs, named''))
+      | _ => none
     else match go named ns f.ty with
       | none => none
       | some (s, named') =>
-        match deriveFieldsWith go renameAll rest named' ns with
+        match deriveFieldsWith go goF dflt renameAll rest named' ns with
         | none => none
         | some (fs, named'') =>
           let hdr : FieldHdr := { name := fieldName f renameAll, doc := f.doc, aliases := f.aliases,
-                                  default := (match f.default with | some j => some j | none => typeFieldDefault f.ty), attrs := [] }
+                                  default := (match f.default with | some j => some j | none => dflt f.ty), attrs := [] }
           some ((hdr, s) :: fs, named'')
 
 /-- unnamed fields → record fields `field_0`, `field_1`, … (`unnamed_fields_to_record_fields`) -/
-def deriveTupleFieldsWith (go : List PName → Option Bytes → TyExpr → DOut) :
+def deriveTupleFieldsWith (go : List PName → Option Bytes → TyExpr → DOut) (dflt : TyExpr → Option Json) :
     List TyExpr → Nat → List PName → Option Bytes → Option (List (FieldHdr × PSchema) × List PName)
   | [], _, named, _ => some ([], named)
   | t :: rest, i, named, ns =>
     match go named ns t with
     | none => none
     | some (s, named') =>
-      match deriveTupleFieldsWith go rest (i+1) named' ns with
+      match deriveTupleFieldsWith go dflt rest (i+1) named' ns with
       | none => none
       | some (fs, named'') =>
-        let hdr : FieldHdr := { name := b!"field_" ++ natBytes i, doc := none, aliases := [], default := typeFieldDefault t, attrs := [] }
+        let hdr : FieldHdr := { name := b!"field_" ++ natBytes i, doc := none, aliases := [], default := dflt t, attrs := [] }
         some ((hdr, s) :: fs, named'')
 
 /-- one variant of a union-of-records enum (`variant_to_schema_expr`, `With::Trait`) -/
-def deriveVariantWith (go : List PName → Option Bytes → TyExpr → DOut) (renameAll renameAllFields : RenameRule)
+def deriveVariantWith (go : List PName → Option Bytes → TyExpr → DOut)
+    (goF : List PName → Option Bytes → TyExpr → DFields) (dflt : TyExpr → Option Json) (renameAll renameAllFields : RenameRule)
     (v : VariantDef) (named : List PName) (ns : Option Bytes) : DOut :=
   let name := variantName v renameAll
   match PName.make name ns with
@@ -183,7 +218,7 @@ def deriveVariantWith (go : List PName → Option Bytes → TyExpr → DOut) (re
     match v.shape with
     | .unit => some (.record pn none none [] [], named)
     | .tuple tys =>
-      (match deriveTupleFieldsWith go tys 0 named ns with
+      (match deriveTupleFieldsWith go dflt tys 0 named ns with
        | none => none
        | some (fs, named') =>
          let attrs : Attrs :=
@@ -191,27 +226,31 @@ def deriveVariantWith (go : List PName → Option Bytes → TyExpr → DOut) (re
            else [(b!"org.apache.avro.rust.tuple", .bool true)]
          some (.record pn none none fs attrs, named'))
     | .struct fields =>
-      (match deriveFieldsWith go (v.renameAll.or renameAllFields) fields named ns with
+      (match deriveFieldsWith go goF dflt (v.renameAll.or renameAllFields) fields named ns with
        | none => none
        | some (fs, named') => some (.record pn none none fs [], named'))
 
-def deriveVariantsWith (go : List PName → Option Bytes → TyExpr → DOut) (renameAll renameAllFields : RenameRule) :
+def deriveVariantsWith (go : List PName → Option Bytes → TyExpr → DOut)
+    (goF : List PName → Option Bytes → TyExpr → DFields) (dflt : TyExpr → Option Json) (renameAll renameAllFields : RenameRule) :
     List VariantDef → List PName → Option Bytes → Option (List PSchema × List PName)
   | [], named, _ => some ([], named)
   | v :: rest, named, ns =>
-    if v.skip then deriveVariantsWith go renameAll renameAllFields rest named ns
-    else match deriveVariantWith go renameAll renameAllFields v named ns with
+    if v.skip then deriveVariantsWith go goF dflt renameAll renameAllFields rest named ns
+    else match deriveVariantWith go goF dflt renameAll renameAllFields v named ns with
       | none => none
       | some (s, named') =>
-        match deriveVariantsWith go renameAll renameAllFields rest named' ns with
+        match deriveVariantsWith go goF dflt renameAll renameAllFields rest named' ns with
         | none => none
         | some (ss, named'') => some (s :: ss, named'')
 
+mutual
 /-- `<T as AvroSchemaComponent>::get_schema_in_ctxt(named_schemas, enclosing_namespace)` -/
 def deriveTy (env : DEnv) : Nat → List PName → Option Bytes → TyExpr → DOut
   | 0, _, _, _ => none
   | fuel+1, named, ns, t =>
     let go := deriveTy env fuel
+    let goF := deriveRec env fuel
+    let dflt := typeFieldDefault env fuel
     match t with
     | .bool => some (.boolean, named)
     | .i8 | .i16 | .i32 | .u8 | .u16 => some (.int, named)
@@ -233,6 +272,11 @@ def deriveTy (env : DEnv) : Nat → List PName → Option Bytes → TyExpr → D
     | .named ident =>
       match env.find? ident with
       | none => none
+      | some (.transparent _ fields) =>
+        -- the schema of the one unskipped field; nothing is registered
+        (match transparentField fields with
+         | some f => go named ns f.ty
+         | none => none)
       | some (.struct _ name doc aliases renameAll fields) =>
         (match PName.make name ns with
          | none => none
@@ -241,7 +285,7 @@ def deriveTy (env : DEnv) : Nat → List PName → Option Bytes → TyExpr → D
            else match deriveAliases aliases with
              | none => none
              | some al =>
-               match deriveFieldsWith go renameAll fields (pn :: named) pn.ns with
+               match deriveFieldsWith go goF dflt renameAll fields (pn :: named) pn.ns with
                | none => none
                | some (fs, named') => some (.record pn al doc fs [], named'))
       | some (.enum _ name doc aliases renameAll renameAllFields variants) =>
@@ -260,12 +304,35 @@ def deriveTy (env : DEnv) : Nat → List PName → Option Bytes → TyExpr → D
                  some (.enum pn al doc symbols default [], pn :: named))
         else
           -- a union of records: not a named type itself, every use builds the variants again
-          (match deriveVariantsWith go renameAll renameAllFields variants named ns with
+          (match deriveVariantsWith go goF dflt renameAll renameAllFields variants named ns with
            | none => none
            | some (ss, named') =>
              match unionNew ss [] [] with
              | some _ => some (.union ss, named')
              | none => none)
+
+/-- `<T as AvroSchemaComponent>::get_record_fields_in_ctxt(named_schemas, enclosing_namespace)`: what
+`#[serde(flatten)]` splices in.  For a derived struct the fields are built in the CALLER's context:
+the struct's name is not registered and its own namespace is not entered. -/
+def deriveRec (env : DEnv) : Nat → List PName → Option Bytes → TyExpr → DFields
+  | 0, _, _, _ => none
+  | fuel+1, named, ns, t =>
+    match t with
+    | .boxed t' => deriveRec env fuel named ns t'
+    | .named ident =>
+      (match env.find? ident with
+       | none => none
+       | some (.transparent _ fields) =>
+         (match transparentField fields with
+          | some f => deriveRec env fuel named ns f.ty
+          | none => none)
+       | some (.struct _ _ _ _ renameAll fields) =>
+         (match deriveFieldsWith (deriveTy env fuel) (deriveRec env fuel) (typeFieldDefault env fuel) renameAll fields named ns with
+          | none => none
+          | some (fs, named') => some (some fs, named'))
+       | some (.enum _ _ _ _ _ _ _) => some (none, named))
+    | _ => some (none, named)
+end
 
 /-- `T::get_schema()` for the defined type `ident` -/
 def deriveSchema (env : DEnv) (fuel : Nat) (ident : Bytes) : Option PSchema :=
